@@ -11,15 +11,15 @@ Import ListNotations.
 
 Definition cur_cfg : config :=
   Config r_ws r_bare_suffix r_suffix_id r_string r_hex r_digits r_frac r_name r_name_suffix
-         cur_fx_ascii_digit cur_fx_int_guard cur_fx_label_validate cur_fx_label_redef.
+         cur_fx_ascii_digit cur_fx_int_guard cur_fx_label_validate cur_fx_label_redef cur_fx_utf8_kind.
 
 Definition pinned_cfg : config :=
   Config r_ws r_bare_suffix r_suffix_id r_pinned_string r_hex r_digits r_frac r_name r_name_suffix
-         false false false false.
+         false false false false false.
 
 Definition repaired_cfg : config :=
   Config r_ws r_bare_suffix r_suffix_id r_proposed_string r_hex r_digits r_frac r_name r_name_suffix
-         true true true true.
+         true true true true true.
 
 (* membership in a table of inclusive ranges, ASCII part first *)
 Definition in_table (t : list (Z * Z) * list (Z * Z)) (x : Z) : bool :=
